@@ -261,7 +261,15 @@ def check(P, R):
     R.ob('C02.c', pm, rets[0] if rets else pm.node, ok, text='request.method upper-cased', detail='' if ok else 'the request verb is not upper-cased')
     h = P.func(f'{OM}:Ombott._handle')
     tc = [c for c in walk_shallow(h.node) if isinstance(c, ast.Call) and dotted(c.func) == 'self.to_route']
-    ok = bool(tc) and len(tc[0].args) == 2 and src(tc[0].args[1]) == 'request.method' and src(tc[0].args[0]) == 'request.path'
+    def _req_attr(e, attr, at):
+        if not (isinstance(e, ast.Attribute) and e.attr == attr):
+            return False
+        cl = h.rd.closure_nodes(e.value, at)
+        return any(isinstance(x, ast.Attribute) and dotted(x) == 'self.request' for x in cl)
+    ok = False
+    if tc and len(tc[0].args) == 2:
+        at_ = h.cfg.node_of_stmt(tc[0])[0]
+        ok = _req_attr(tc[0].args[0], 'path', at_) and _req_attr(tc[0].args[1], 'method', at_)
     R.ob('C02.c', h, tc[0] if tc else h.node, ok, text='to_route(request.path, request.method)', detail='' if ok else
          '_handle does not route on (request.path, request.method)')
 
